@@ -353,7 +353,7 @@ func init() {
 	RegisterProbe("c05-mount-rename-onto-dir", c05Probe(lsMountBare, opWrite("a"), opMkdir("m/d"), opRename("a", "m/d")))
 	Register(&Engine{
 		Prop: "C05", Name: "fsdiff/layer-stacks", Run: runC05,
-		Trials: map[string]int{"quick": 4000, "thorough": 150000},
+		Trials: map[string]int{"quick": 40000, "thorough": 400000},
 		Rule:   "seeded histories (1-20 steps, C01 alphabet plus invalid names and Symlink) over a drawn layer stack (mem; keyvalue+SimStore; mount.FS with the path 0,1,2 mount points deep, bare and through mounttest; Sub of mem, of a mount point, above a mount point, nested Sub; os.FS under 1 and 3 Sub roots; cache; tar) mirrored on an os twin; every failing call is judged for concrete type, path fields and sentinel against the twin's error; non-trivial = at least one failing call judged; distinct = event-log hash",
 		Components: map[string][]string{
 			"real": {"errors.go", "mount.go stripErrPathPrefix", "sub.go", "package helpers", "keyvalue.FS", "mount.FS", "internal/mounttest", "os.FS error translation", "cache", "tar (joined before the judged phase)"},
